@@ -138,6 +138,34 @@ func init() {
 		}
 		return smt.StrLit(b.String())
 	}
+	// vWatch(p): from now on stores into the object p points to are recorded
+	intrinsics["vWatch"] = func(in *Interp, fn *ssa.Function, a []Value) Value {
+		in.Ghost["watch.obj"] = a[0].(*Ptr).Obj
+		in.Ghost["watch.writes"] = [][]int(nil)
+		in.Ghost["watch.type"] = derefType(fn.Signature.Params().At(0).Type())
+		return nil
+	}
+	// vWatchedWritesExcept(field): number of recorded stores into fields other than the named one
+	intrinsics["vWatchedWritesExcept"] = func(in *Interp, fn *ssa.Function, a []Value) Value {
+		name := constStr(in, a[0], "field name")
+		t, _ := in.Ghost["watch.type"].(types.Type)
+		skip := -1
+		if t != nil {
+			skip = fieldIndex(t, name)
+		}
+		l, _ := in.Ghost["watch.writes"].([][]int)
+		n := 0
+		for _, p := range l {
+			if len(p) > 0 && p[0] == skip {
+				continue
+			}
+			n++
+			if t != nil && len(p) > 0 {
+				in.event("write to SP field %s", t.Underlying().(*types.Struct).Field(p[0]).Name())
+			}
+		}
+		return smt.BV(uint64(n), 64)
+	}
 	intrinsics["vTraceShape"] = func(in *Interp, fn *ssa.Function, a []Value) Value {
 		s, _ := in.Ghost["hb.slow"].(string)
 		f, _ := in.Ghost["hb.fast"].(string)
